@@ -32,7 +32,8 @@
 //     before decodes without error to a prefix of the input;
 //   * after FINISH the whole output decodes (LZMA_FINISH -> LZMA_STREAM_END) to the whole input, Blocks, Index
 //     Records, Stream Footer agree with each other and with the history;
-//   * no other fatal error is ever returned by lzma_code.
+//   * no other fatal error is ever returned by lzma_code, except when a Block cannot be started with a chain that an
+//     accepted mid-Block lzma_filters_update left behind (a scratch Block encoder refuses that chain with the same code).
 #include "c12.h"
 #include <unistd.h>
 #include "common.h"   // liblzma internal: strm->internal->sequence (ISEQ_ERROR) to tell fatal errors apart
@@ -47,6 +48,9 @@ typedef struct {
 	chain_t cur;        // chain the next Block will use
 	chain_t blk;        // chain of the open Block (stream kinds) / the fixed chain (raw, block)
 	bool block_open;    // stream kinds: input arrived since the last Block end
+	lzma_ret cur_init;  // what initialising a Block with `cur` answers (probed on a scratch coder when an update was accepted):
+	                    // a mid-Block update validates only what it uses, so an unusable chain (e.g. misaligned BCJ
+	                    // start_offset) is found out when the next Block is started
 	unsigned check;
 	uint32_t easy_preset;
 	// slicing
@@ -475,8 +479,21 @@ static void run_case(char **tok, int ntok)
 			chain_t nc;
 			if (arg == NULL || !chain_parse(&nc, arg)) { printf("bad-op\n"); goto done; }
 			r = lzma_filters_update(&strm, nc.f);
-			if (r == LZMA_OK && is_stream_kind(&c))
+			if (r == LZMA_OK && is_stream_kind(&c)) {
 				c.cur = nc;
+				// independent probe: would a Block encoder accept this chain?
+				lzma_stream probe = LZMA_STREAM_INIT;
+				lzma_block pb;
+				memset(&pb, 0, sizeof(pb));
+				pb.check = c.check;
+				pb.filters = nc.f;
+				pb.compressed_size = LZMA_VLI_UNKNOWN;
+				pb.uncompressed_size = LZMA_VLI_UNKNOWN;
+				c.cur_init = lzma_block_header_size(&pb);
+				if (c.cur_init == LZMA_OK)
+					c.cur_init = lzma_block_encoder(&probe, &pb);
+				lzma_end(&probe);
+			}
 		} else {
 			lzma_action a;
 			switch (kindc) {
@@ -490,6 +507,7 @@ static void run_case(char **tok, int ntok)
 			size_t dn = 0;
 			uint8_t *data = arg ? gen_data(arg, &dn) : NULL;
 			const uint64_t in_before = strm.total_in;
+			const bool block_open_before = c.block_open;
 			if (a == LZMA_RUN) {
 				size_t off = 0;
 				while (off < dn && r == LZMA_OK) {
@@ -562,7 +580,10 @@ static void run_case(char **tok, int ntok)
 					}
 				}
 			} else if (dead) {
-				if (!(a == LZMA_SYNC_FLUSH && nonflushable && r == LZMA_OPTIONS_ERROR))
+				// expected fatal errors: a refused SYNC_FLUSH; a Block that cannot be started with the chain an
+				// accepted mid-Block update left behind (delayed validation of options the update did not look at)
+				const bool delayed = is_stream_kind(&c) && !block_open_before && c.cur_init != LZMA_OK && r == c.cur_init;
+				if (!(a == LZMA_SYNC_FLUSH && nonflushable && r == LZMA_OPTIONS_ERROR) && !delayed)
 					fail(&c, "unexpected-fatal-error", op);
 				bytes_t dec = {0};
 				const lzma_ret dr = decode_fresh(&c, c.output.n, false, &dec);
